@@ -344,6 +344,7 @@ def fingerprint(controller):
 
 
 STALL = 0.05
+STALLS = [STALL]   # durations offered at a line-level preemption point (a scenario may add longer ones)
 
 
 def alternatives(rt):
@@ -363,7 +364,8 @@ def alternatives(rt):
     if rt.trace_fn is not None and lr is not None and lr.state == 'blocked' and lr.block[0] == 'preempt':
         # the activity that just reached a line-level preemption point is descheduled for STALL virtual seconds: one
         # deviation that lets every chain of hand-offs among the other activities complete first
-        alts.append(('stall', lr))
+        for dur in STALLS:
+            alts.append(('stall', (lr, dur)))
     return alts
 
 
@@ -374,12 +376,12 @@ def alt_label(a):
     if kind == 'exit':
         return 'exit:%s#%d' % (obj.job.reference, obj.index)
     if kind == 'stall':
-        return 'stall:%s' % obj.label
+        return 'stall:%s:%g' % (obj[0].label, obj[1])
     return 'tick'
 
 
 def execute(scn, choices, horizon=900.0, step_cap=30000, want_fps=True, main=None, setup=None, extra_alts=None, probe=None,
-            trace=None):
+            trace=None, pause=None, stalls=None):
     """One complete execution. `choices` = prefix of choice indices, afterwards choice 0 (canonical) everywhere.
 
     main(exp, controller, result) may replace the default stage loop; setup(exp, controller) runs before it in the
@@ -389,6 +391,7 @@ def execute(scn, choices, horizon=900.0, step_cap=30000, want_fps=True, main=Non
     rt = vrt.Runtime()
     vrt.set_runtime(rt)
     reset_class_state()
+    STALLS[:] = [STALL] + [d for d in (stalls or []) if d != STALL]
     if trace:
         # line-level preemption points: every source line of the listed functions is a scheduling point
         wanted = set(tuple(t) for t in trace)
@@ -440,6 +443,17 @@ def execute(scn, choices, horizon=900.0, step_cap=30000, want_fps=True, main=Non
             except BaseException as e:  # noqa
                 result['ret'] = 'main-raised:%s' % type(e).__name__
 
+        if pause:
+            # scripted environment: the operator pauses the controller at virtual time pause[0] and wakes it up at pause[1]
+            def pauser():
+                rt.yield_blocked(('sleep',), due=float(pause[0]))
+                controller.sleep()
+                ev('pause')
+                rt.yield_blocked(('sleep',), due=float(pause[1]))
+                controller.wake_up()
+                ev('wake-up')
+
+            rt.spawn(pauser, 'env:pause')
         if main is None:
             rt.spawn(default_main, 'main')
         else:
@@ -482,8 +496,8 @@ def execute(scn, choices, horizon=900.0, step_cap=30000, want_fps=True, main=Non
             elif kind == 'exit':
                 obj.finish()
             elif kind == 'stall':
-                obj.block = ('sleep',)
-                obj.block_due = rt.now + STALL
+                obj[0].block = ('sleep',)
+                obj[0].block_due = rt.now + obj[1]
             else:
                 obj[1]()
             i += 1
